@@ -14,7 +14,7 @@ import itertools
 
 import numpy as np
 
-from mc import ana, framework as fw, histories, records
+from mc import ana, api, framework as fw, histories, records
 from mc import resultmodel as rm
 
 PROPERTY = "C20"
@@ -22,12 +22,12 @@ META = {
     "level": "model_checking",
     "rule": ("E1: full product result x attribute name (relation table) and result x array-valued name x query kind; E2: explicit-state BFS "
              "over operation histories up to the stated depth over the full alphabet (every public attribute + 3 interpolated reads + "
-             "DataFrame export + 6 copy/pickle operations), states deduplicated by a hash of (_data, cache keys and values); transitions are "
+             "DataFrame export + 6 copy/pickle operations), states deduplicated by a hash of the complete object state (vars() recursively); transitions are "
              "real calls on objects rebuilt from the history; non-trivial: every transition (all baseline values are defined)"),
     "exhaustive": True,
     "bounds": {"quick": "results: auto/cross x {ragged plan, equal-K plan, single-bin by L, single-bin by a non-dividing fres} + Lmin=N plan; E2 depth 2", "thorough": "E2 depth 3 for reads and copies"},
     "assumptions": ["fresh value = value read first on a newly constructed result with the same raw fields",
-                    "hash covers _data and _cache completely, so equal hashes have equal futures"],
+                    "the hash covers vars(result) recursively, so equal hashes have equal futures"],
 }
 RESULTS = ("auto/ragged", "cross/ragged", "auto/equalK", "cross/equalK", "auto/single", "cross/single", "cross/LminN", "auto/LminN",
            "auto/singlefres", "cross/singlefres", "cross/delayed")
@@ -62,10 +62,9 @@ def make_raw(kind, seed=0):
         r = an.compute_single_bin(0.7, fres=fs / 16.3)  # a resolution that is not fs/integer
     else:
         r = an.compute()
-    d = dict(r._data)
-    d["D"] = [np.asarray(v, dtype=np.int64) for v in d["D"]]
+    d = api.raw_dict(r)
     d["compute_t"] = np.zeros_like(np.asarray(d["compute_t"], dtype=float))
-    return rm.clone_raw(d), dict(r._config), r.iscsd, r.fs
+    return rm.clone_raw(d), dict(an.config), r.iscsd, r.fs
 
 
 def fresh(raw):
@@ -240,8 +239,7 @@ def _constructed(shard):
     for iscsd, fs, S2 in itertools.product((True, False), (1.0, 1000.0), (0.3, 40.0)):
         pts = [(g2, n, xx, yy, arg) for g2, n, xx, yy, arg in itertools.product((0.01, 0.5, 0.99), (1, 7), (1e-6, 3.0), (2.0, 1e6), (0.3, -2.5, 3.1))]
         r = build_result(fs, S2, iscsd, pts)
-        d = {k: np.asarray(v) for k, v in r._data.items() if k != "D"}
-        d["D"] = [np.asarray(v) for v in r._data["D"]]
+        d = api.raw_dict(r)
         raw = (d, {}, iscsd, fs)
         check_relations(fresh(raw), raw, f"rel/constructed/{'csd' if iscsd else 'auto'}", out, seen, dict(shard))
     out["samples"].append({"constructed": "g2 x n x XX x YY x arg grid, 72 bins"})
@@ -298,7 +296,6 @@ def explore(raw, ops, depth, tag, case0, max_states=400000):
     """BFS over histories; returns (Explorer, failures as fw.fail list)."""
     d0, cfg, iscsd, fs = raw
     f = np.asarray(d0["f"], dtype=float)
-    pristine = histories.state_hash({k: v for k, v in d0.items()})
     probe = fresh(raw)
     names = rm.dynamic_names(probe)
     # baseline: value of every op on a fresh object
@@ -315,8 +312,9 @@ def explore(raw, ops, depth, tag, case0, max_states=400000):
 
     def apply(h, op):
         r = h.obj
-        pre["cache"] = {k: (id(v), v) for k, v in r._cache.items()}
-        pre["snap"] = {k: (None if v is None else (np.array(v, copy=True) if isinstance(v, np.ndarray) else v)) for k, v in r._cache.items()}
+        # everything the object holds before the operation (raw fields and whatever it has cached, in whatever layout)
+        st = api.flatten_state(r)
+        pre["state"] = {p: (id(v), (np.array(v, copy=True) if isinstance(v, np.ndarray) else v)) for p, v in st.items()}
         try:
             return ("ok", apply_op(h, op, f))
         except Exception as e:  # noqa: BLE001
@@ -326,8 +324,7 @@ def explore(raw, ops, depth, tag, case0, max_states=400000):
         return ops if len(hist) < depth else []
 
     def canon(h, hist):
-        r = h.obj
-        return histories.state_hash({"data": r._data, "cache": r._cache, "iscsd": r.iscsd, "fs": r.fs, "nf": r.nf})
+        return histories.state_hash(h.obj)
 
     def invariant(hist, op, h, obs, allobs):
         res = []
@@ -337,19 +334,18 @@ def explore(raw, ops, depth, tag, case0, max_states=400000):
         r = h.obj
         if op in base and not obs_equal(obs[1], base[op]):
             res.append((f"{tag}/value/{opn}", f"after {list(hist)} the operation {op} returned a value different from a fresh result's"))
-        # cached entries are returned unchanged (same object unless the object was copied; same bytes always)
-        for k, (oid, v) in pre["cache"].items():
-            if k not in r._cache:
-                res.append((f"{tag}/cache-lost/{opn}", f"after {list(hist)}+{op}: cached attribute {k} disappeared"))
+        # whatever was stored in the object before the operation (raw data, cached attributes) is unchanged afterwards:
+        # same bytes always; same object for read-only operations
+        now = api.flatten_state(r)
+        for p_, (oid, v) in pre["state"].items():
+            if p_ not in now:
                 continue
-            if not rm.identical(r._cache[k], pre["snap"][k]):
-                res.append((f"{tag}/cache-changed/{opn}", f"after {list(hist)}+{op}: cached attribute {k} changed value"))
-            elif op[0] in ("get", "meas", "df") and id(r._cache[k]) != oid:
-                res.append((f"{tag}/cache-replaced/{opn}", f"after {list(hist)}+{op}: cached attribute {k} is a different object"))
-        # raw data never modified
-        if histories.state_hash({k: (list(v) if k == "D" else v) for k, v in r._data.items() if k in d0}) != \
-                histories.state_hash({k: (list(np.asarray(x) for x in v) if k == "D" else v) for k, v in fresh(raw)._data.items() if k in d0}):
-            res.append((f"{tag}/data-modified/{opn}", f"after {list(hist)}+{op}: the raw per-bin data changed"))
+            if not rm.identical(now[p_], v):
+                res.append((f"{tag}/stored-value-changed/{opn}", f"after {list(hist)}+{op}: the stored value {p_} changed"))
+                break
+            if op[0] in ("get", "meas", "df") and isinstance(v, np.ndarray) and id(now[p_]) != oid:
+                res.append((f"{tag}/stored-value-replaced/{opn}", f"after {list(hist)}+{op}: the stored array {p_} was replaced by another object"))
+                break
         # every value read afterwards equals the fresh value
         for a in names:
             try:
